@@ -549,7 +549,7 @@ def gen_value(t, rng, depth=0):
         return 'none' if rng.random() < 0.3 else '(some %s)' % gen_value(t[1], rng, depth + 1)
     if k == 'res':
         if rng.random() < 0.4:
-            return '(err %d)' % rng.choice([0, 1, 2])
+            return '(err %d)' % (rng.choice([0, 1, 2]) if rng.random() < 0.5 else gen_int(t[2], rng))
         return '(ok %s)' % gen_value(t[3], rng, depth + 1)
     if k == 'var':
         if rng.random() < 0.2 or not t[1]:
